@@ -277,7 +277,14 @@ func runC17(r *Run) {
 		which := t.Intn(4, "limiter")
 		lim0 := 1 + t.Intn(2, "limiter-limit")
 		st := strategy.NewSimpleStrategyWithMetricRegistry(lim0, qr)
-		dl, _ := limiter.NewDefaultLimiter(limit.NewAIMDLimit("aimd", lim0, 0.9, 1, qr), 1, 1, 0, 10, st, nopLogger{}, qr)
+		var algo core.Limit = limit.NewAIMDLimit("aimd", lim0, 0.9, 1, qr)
+		var settable *limit.SettableLimit
+		if t.Chance(30, "limiter-over-settable-limit") {
+			// the limit is also driven from outside the limiter (an operator's SetLimit)
+			settable = limit.NewSettableLimit("settable", lim0, qr)
+			algo = settable
+		}
+		dl, _ := limiter.NewDefaultLimiter(algo, 1, 1, 0, 10, st, nopLogger{}, qr)
 		// the sample window is one completion from closing: the next success updates nextUpdateTime and the limit
 		for i := 0; i < 10; i++ {
 			if ls, ok := dl.Acquire(bg); ok {
@@ -313,6 +320,13 @@ func runC17(r *Run) {
 			}},
 			{"EstimatedLimit", false, func(tk *Task, x int) { _ = dl.EstimatedLimit() }},
 			{"delegate.String", false, func(tk *Task, x int) { _ = dl.String() }},
+			{"Limit.SetLimit", true, func(tk *Task, x int) {
+				if settable != nil {
+					settable.SetLimit(1 + x%4)
+				} else {
+					_ = dl.EstimatedLimit()
+				}
+			}},
 		}
 	case 3: // measurements
 		var m core.MeasurementInterface
